@@ -219,3 +219,88 @@ func HC05Seq() {
 	SetLimit(old)
 	vReach("end")
 }
+
+// c05BigReader delivers a long input; the chunk size of each Read comes from a small menu (all that
+// fits, one byte, half, up to the next 3072-byte boundary) and at most two Reads deviate from "all that fits".
+type c05BigReader struct {
+	data        []byte
+	pos         int
+	odd         int
+	eofWithData bool
+}
+
+func (r *c05BigReader) Read(p []byte) (int, error) {
+	if len(p) == 0 {
+		return 0, nil
+	}
+	remaining := len(r.data) - r.pos
+	if remaining == 0 {
+		return 0, vio.EOF
+	}
+	max := len(p)
+	if remaining < max {
+		max = remaining
+	}
+	k := max
+	if r.odd < 2 && max > 1 {
+		switch vChoice("bigchunk", 4) {
+		case 1:
+			k, r.odd = 1, r.odd+1
+		case 2:
+			k, r.odd = max/2, r.odd+1
+		case 3:
+			if b := 3072 - r.pos%3072; b < max {
+				k, r.odd = b, r.odd+1
+			} else {
+				vAssume(false)
+			}
+		}
+	}
+	copy(p, r.data[r.pos:r.pos+k])
+	r.pos += k
+	if r.pos == len(r.data) && r.eofWithData {
+		return k, vio.EOF
+	}
+	return k, nil
+}
+
+// HC05Big: inputs around and beyond the default header size (3072) with limits below, at and above
+// it: the reader path hands the walk exactly Detect's header and stays within the limit. The bytes
+// are a fixed pattern with symbolic bytes at the first, the 3072nd and the last position.
+func HC05Big() {
+	sizes := []int{3071, 3072, 3073, 3080, 6144, 6145}
+	n := sizes[vChoice("size", len(sizes))]
+	data := make([]byte, n)
+	for i := range data {
+		data[i] = byte(i*7 + 3)
+	}
+	sym := vBytes("sym", 3, 3)
+	data[0], data[3070], data[n-1] = sym[0], sym[1], sym[2]
+	lims := []uint32{0, 3071, 3072, 3073, 3100, 6144, 6145, 8192}
+	l := lims[vChoice("limit", len(lims))]
+	s := l1Setup()
+	s.allFalse = true
+	old := readLimit
+	SetLimit(l)
+	inA, lA, okA := c05Capture(s, func() { Detect(data) })
+	wantLen := n
+	if l > 0 && n > int(l) {
+		wantLen = int(l)
+	}
+	vAssert(okA && len(inA) == wantLen && lA == l, "big-detect-slices-to-limit")
+	rd := &c05BigReader{data: data, eofWithData: vChoice("eofWithData", 2) == 1}
+	var rB *MIME
+	var errB error
+	inB, lB, okB := c05Capture(s, func() { rB, errB = DetectReader(rd) })
+	vAssert(rB != nil && errB == nil && okB, "big-reader-ok")
+	vAssert(lB == l, "big-same-limit")
+	vAssert(len(inB) == wantLen, "big-same-header-length")
+	vAssert(len(inB) != wantLen || vSameBytes(inB, inA), "big-same-header-bytes")
+	if l > 0 {
+		vAssert(rd.pos <= int(l), "big-reader-consumes-at-most-limit")
+	} else {
+		vAssert(rd.pos == n, "big-reader-consumes-everything-when-unlimited")
+	}
+	SetLimit(old)
+	vReach("end")
+}
